@@ -84,7 +84,20 @@ def make_mesh(curve_name, rseed, n_ops, custom_grid=False, time_grid=None, max_a
     rng = random.Random(rseed)
     geo = Geo(curve_name)
     space_grid = None
-    if custom_grid:
+    if custom_grid == 'graded':
+        # initial grid graded geometrically towards a break point / an end of the curve: neighbouring roots differ by a factor two,
+        # next-but-one neighbours by 4, 8, 16, ... (near pairs of large length ratio without any time refinement)
+        pts = set(geo.starts)
+        j = rng.randrange(len(geo.starts))
+        left = (j > 0) and (rng.random() < 0.5 or j == len(geo.starts) - 1)
+        ln = (geo.starts[j] - geo.starts[j - 1]) if left else (geo.starts[j + 1] - geo.starts[j])
+        kmax = rng.randint(4, 6)
+        for k in range(1, kmax):
+            # some graded points are left out, so that touching roots also differ by factors 4, 8, 16
+            if k in (1, kmax - 1) or rng.random() < 0.55:
+                pts.add(geo.starts[j] - ln * 2.0**-k if left else geo.starts[j] + ln * 2.0**-k)
+        space_grid = sorted(pts)
+    elif custom_grid:
         pts = set(geo.starts)
         for _ in range(rng.randint(1, 3)):
             i = rng.randrange(len(geo.starts) - 1)
